@@ -69,8 +69,8 @@ def lit_num(x):
 
 class C17(Check):
     pid = "C17"
-    timeout_is_violation = True     # "rendering always terminates": a case that still times out when re-run alone is a violation
     props = V.existing_props(["C17_print.v"])
+    timeout_is_violation = True     # "rendering always terminates": a case that still times out when re-run alone is a violation
     rule = ("families: doubles by random bit pattern and the classic hard cases, read from documents and computed by programs, at top "
             "level and nested (text matches -?[0-9]+(.[0-9]+)? and reads back bit-identical); print with 1-5 arguments of every kind; "
             "bare print / body-less rule / print $ on scalar, string, object and array documents; nested documents up to depth 6 with "
@@ -155,6 +155,12 @@ class C17(Check):
             v = tree(rng, dmax, HARD)
             if not isinstance(v, (list, dict)):
                 v = [v, {}, []]
+            if rng.random() < 0.08:
+                # wide: more members than any small-size special case of a sort / a buffer would cover
+                wk = ["k%d" % i for i in range(30)] + ["a", "B", "b", "a1", "a10", "a2", "A", "Z", "z", "aa", "é", "日", "k", "K"]
+                rng.shuffle(wk)
+                wide = {kk: tree(rng, 1, HARD[:12]) for kk in wk[:rng.randint(13, 40)]}
+                v = wide if rng.random() < 0.6 else [wide, [tree(rng, 0, HARD) for _ in range(rng.randint(13, 60))]]
             if k % 3 == 0:
                 prog, doc = "BEGIN { v = %s\n print v }" % pyref.literal(v), ""
                 if not literal_ok(v):
@@ -230,6 +236,9 @@ class C17(Check):
     def gen_cycle(self, rng, n, cases):
         for k in range(n):
             cid = "cy%d" % k
+            if k % 9 == 3 and k >= 16:
+                self.deep_chain(rng, cid, cases)
+                continue
             clen = k % 4 + 1 if k < 16 else rng.randint(1, 4)
             nn = rng.randint(clen, 5)
             kinds = [rng.choice("ao") for _ in range(nn)]
@@ -313,6 +322,53 @@ class C17(Check):
             prog = "BEGIN { " + "\n ".join(lines) + " }"
             meta = {"fam": "exact", "prog": prog, "doc": "", "want": "".join(w + "\n" for w in want), "cyclic": True, "cycle_length": clen}
             cases.append(Case(cid, simple_run(cid, prog), meta, True, ["cycle"]))
+
+    def deep_chain(self, rng, cid, cases):
+        """a chain of 6-40 containers, each holding the next, the last one pointing back into the chain (a cycle of any
+        length entered through a long tail) or ending it (deep nesting, no cycle); a shared leaf container on the way"""
+        nn = rng.randint(6, 40)
+        kinds = [rng.choice("ao") for _ in range(nn)]
+        nodes, lines = [], []
+        leaf = [1.0, "s"]
+        lines.append('leaf = [1, "s"]')
+        for i in range(nn):
+            if kinds[i] == "a":
+                nodes.append([None, float(i)])
+                lines.append("c%d = [null, %d]" % (i, i))
+            else:
+                nodes.append({"id": float(i)})
+                lines.append("c%d = {id: %d}" % (i, i))
+        order = list(range(nn - 1))
+        rng.shuffle(order)
+        for i in order:
+            lines.append("c%d[0] = c%d" % (i, i + 1) if kinds[i] == "a" else "c%d.nxt = c%d" % (i, i + 1))
+            if kinds[i] == "a":
+                nodes[i][0] = nodes[i + 1]
+            else:
+                nodes[i]["nxt"] = nodes[i + 1]
+        back = rng.choice([None, 0, rng.randrange(nn), nn - 1, max(0, nn - 5)])
+        last = nn - 1
+        if back is not None:
+            lines.append("c%d[0] = c%d" % (last, back) if kinds[last] == "a" else "c%d.nxt = c%d" % (last, back))
+        else:
+            lines.append("c%d[0] = leaf" % last if kinds[last] == "a" else "c%d.nxt = leaf" % last)
+        tgt = nodes[back] if back is not None else leaf
+        if kinds[last] == "a":
+            nodes[last][0] = tgt
+        else:
+            nodes[last]["nxt"] = tgt
+        j = rng.randrange(nn)
+        if kinds[j] == "o":
+            lines.append("c%d.zleaf = leaf" % j)
+            nodes[j]["zleaf"] = leaf
+        want = []
+        for i in [0, rng.randrange(nn), last]:
+            lines.append("print c%d" % i)
+            want.append(render(nodes[i]))
+        prog = "BEGIN { " + "\n ".join(lines) + " }"
+        meta = {"fam": "exact", "prog": prog, "doc": "", "want": "".join(w + "\n" for w in want), "cyclic": back is not None,
+                "chain": nn, "back": back}
+        cases.append(Case(cid, simple_run(cid, prog), meta, True, ["cycle", "deep"]))
 
     def generate(self, rng, tier):
         q = tier == "quick"
